@@ -252,11 +252,14 @@ def handler_tie(c):
         return
     rc, so, se = sh([os.path.join(BIN, "rtgrpc"), "gen", "-seed", str(c.seed), "-tier", c.tier])
     ops = c.corpus() + so.splitlines()
-    ops = [o for o in ops if o.startswith("unary ")]
+    ops = [o for o in ops if o.startswith(("unary ", "stream "))]
     impl, model, dis = c.correspondence("gRPC unary handler + invoker vs Model/GrpcHandler.lean", ops, [os.path.join(BIN, "rtgrpc"), "run"],
                                         [os.path.join(LEAN, ".lake/build/bin/drv_grpc")])
     for op, line in zip(ops, impl):
         t = op.split()
+        if t[0] == "stream":
+            c.hist("stream handler steps (decoder/endpoint)", "/".join(x[:3] for x in t[1:3]))
+            continue
         c.hist("handler steps (decoder/endpoint/encoder)", "/".join(x[:3] for x in t[1:4]))
         c.hist("handler metadata", "header %s, trailer %s" % ("set" if " H 0" not in op else "empty", "set" if " T 0" not in op else "empty"))
         if "ok ok ok" in op:
@@ -264,7 +267,7 @@ def handler_tie(c):
     for i, op, a, b in dis:
         fa, fb = dict(x.split("=", 1) for x in a.split() if "=" in x), dict(x.split("=", 1) for x in b.split() if "=" in x)
         diff = [k for k in ("code", "ran", "result", "hdr", "trlr") if fa.get(k) != fb.get(k)] or ["output"]
-        c.fail("c10/runtime/unary-handler:" + "+".join(diff), "the unary handler / invoker gives %s where the property (Props/C10.lean, handler section) demands %s" % (a, b),
+        c.fail("c10/runtime/%s-handler:" % op.split()[0] + "+".join(diff), "the unary handler / invoker gives %s where the property (Props/C10.lean, handler section) demands %s" % (a, b),
                input=op, expected=b, actual=a)
 
 
@@ -279,7 +282,7 @@ def run(c):
         "numbers and names per message, known types, scalar map keys)",
         "Model/GrpcHandler.lean is hand-written from grpc/handler.go (unaryHandler.Handle) and grpc/client.go with the status function translated from "
         "grpc/error.go (gotolean, T1); harness/cmd/rtgrpc supplies hand-written decoders/encoders (scripted per line) in place of the generated ones and "
-        "wrapperspb messages over bufconn; the stream handler is not modelled",
+        "wrapperspb messages over bufconn; the stream handler (Decode then Handle) is called directly, without a transport",
         "Model/Proto.lean is hand-written from expr/grpc_endpoint.go Validate / validateMessage / validateRPCTags (request side); response messages and nested "
         "user types are judged only by the parser",
     ]
